@@ -1,6 +1,7 @@
 SPECIFICATION Spec
 CONSTANT KS = {40}
-CONSTANT NES = {1, 2, 3, 5, 7, 12}
+CONSTANT NES = {1, 3, 7, 12}
+CONSTANT MaxCells = 3
 INVARIANT BeforeConsistent
 INVARIANT ImplSatisfiesD
 INVARIANT ResultConsistent
